@@ -11,6 +11,12 @@
 //	      kind=tie   same with repeated levels (exact float ties)
 //	      kind=off   weights outside the property's domain: 0 (key -Inf), +Inf (key +Inf), negative (key NaN -> rank "nan")
 //	      kind=panic argument combinations that must panic
+//	wseq | <call> ; <call> ; ...    several calls one after the other in THIS process (state carried across calls):
+//	    v <seed> <m> w=.. u=.. r=.. [c= scale=] kind=..   a valid call, exactly as `ws`
+//	    pw <seed> <m> <n> <k>    getWeight panics at index k (weights 1.0 before); the caller recovers   -> panic callback
+//	    nil <m> <n>              nil getWeight                                                          -> panic nil
+//	    pa <m> <n>               invalid arguments (panic by contract)                                  -> panic invalid|makecap|index
+//	    -> the answers joined by " ; "
 //	stat <seed> <trials> <m> w=<bits,..>
 //	    -> freq <ok|FAIL> n=<trials> c=<mask:count,..> [first deviation]      (mask = bit set of the returned indices)
 package main
@@ -80,6 +86,10 @@ func canonPanic(r any) string {
 		return "panic makecap"
 	case strings.Contains(msg, "index out of range"):
 		return "panic index"
+	case strings.Contains(msg, "callback-panics-here"):
+		return "panic callback"
+	case strings.Contains(msg, "nil pointer dereference"):
+		return "panic nil"
 	}
 	return "panic other:" + strings.ReplaceAll(msg, " ", "_")
 }
@@ -94,7 +104,93 @@ func intsJoin(xs []int) string {
 
 // ---------------------------------------------------------------- execution
 
+// one valid-looking call: w = ["ws"|"v", seed, m, fields...]
+func execWs(w []string) (out string) {
+	defer func() {
+		if r := recover(); r != nil {
+			out = canonPanic(r)
+		}
+	}()
+	seed, _ := strconv.ParseInt(w[1], 10, 64)
+	m, _ := strconv.Atoi(w[2])
+	ws, _ := field(w, "w=")
+	us, _ := field(w, "u=")
+	weights, want := parseBits(ws), parseBits(us)
+	n := len(weights)
+	got := drawU(seed, n)
+	for i := range got {
+		if i >= len(want) || math.Float64bits(got[i]) != math.Float64bits(want[i]) {
+			return "stream-mismatch"
+		}
+	}
+	total := n
+	if ov, ok := field(w, "n="); ok {
+		total, _ = strconv.Atoi(ov)
+	}
+	rand.Seed(seed)
+	res := randx.WeightedSampling(m, total, func(i int) float64 { return weights[i] })
+	parts := []string{"r"}
+	for _, x := range res {
+		parts = append(parts, strconv.Itoa(x))
+	}
+	return strings.Join(parts, " ")
+}
+
+// a call that panics (in the callback or by contract); the panic is recovered here, as a request-level recover would
+func execPanicCall(w []string) (out string) {
+	defer func() {
+		if r := recover(); r != nil {
+			out = canonPanic(r)
+		}
+	}()
+	var res []int
+	switch {
+	case w[0] == "pw" && len(w) == 5:
+		seed, _ := strconv.ParseInt(w[1], 10, 64)
+		m, _ := strconv.Atoi(w[2])
+		n, _ := strconv.Atoi(w[3])
+		k, _ := strconv.Atoi(w[4])
+		rand.Seed(seed)
+		res = randx.WeightedSampling(m, n, func(i int) float64 {
+			if i == k {
+				panic("callback-panics-here")
+			}
+			return 1.0
+		})
+	case w[0] == "nil" && len(w) == 3:
+		m, _ := strconv.Atoi(w[1])
+		n, _ := strconv.Atoi(w[2])
+		res = randx.WeightedSampling(m, n, nil)
+	case w[0] == "pa" && len(w) == 3:
+		m, _ := strconv.Atoi(w[1])
+		n, _ := strconv.Atoi(w[2])
+		res = randx.WeightedSampling(m, n, func(i int) float64 { return 1.0 })
+	default:
+		return "bad-op"
+	}
+	return "returned " + strings.ReplaceAll(fmt.Sprint(res), " ", ",")
+}
+
+func execSeq(body string) string {
+	var outs []string
+	for _, call := range strings.Split(body, " ; ") {
+		w := strings.Fields(call)
+		switch {
+		case len(w) >= 3 && w[0] == "v":
+			outs = append(outs, execWs(w))
+		case len(w) >= 1:
+			outs = append(outs, execPanicCall(w))
+		default:
+			outs = append(outs, "bad-op")
+		}
+	}
+	return strings.Join(outs, " ; ")
+}
+
 func exec(c *hx.Ctx, line string) (out string) {
+	if strings.HasPrefix(line, "wseq | ") {
+		return execSeq(line[7:])
+	}
 	defer func() {
 		if r := recover(); r != nil {
 			out = canonPanic(r)
@@ -103,29 +199,7 @@ func exec(c *hx.Ctx, line string) (out string) {
 	w := strings.Fields(line)
 	switch w[0] {
 	case "ws":
-		seed, _ := strconv.ParseInt(w[1], 10, 64)
-		m, _ := strconv.Atoi(w[2])
-		ws, _ := field(w, "w=")
-		us, _ := field(w, "u=")
-		weights, want := parseBits(ws), parseBits(us)
-		n := len(weights)
-		got := drawU(seed, n)
-		for i := range got {
-			if i >= len(want) || math.Float64bits(got[i]) != math.Float64bits(want[i]) {
-				return "stream-mismatch"
-			}
-		}
-		total := n
-		if ov, ok := field(w, "n="); ok {
-			total, _ = strconv.Atoi(ov)
-		}
-		rand.Seed(seed)
-		res := randx.WeightedSampling(m, total, func(i int) float64 { return weights[i] })
-		parts := []string{"r"}
-		for _, x := range res {
-			parts = append(parts, strconv.Itoa(x))
-		}
-		return strings.Join(parts, " ")
+		return execWs(w)
 	case "stat":
 		seed, _ := strconv.ParseInt(w[1], 10, 64)
 		trials, _ := strconv.Atoi(w[2])
@@ -597,6 +671,82 @@ func gen(c *hx.Ctx) {
 		c.Emit("ws %d %d w=%s u=%s r=%s c=%s scale=%s kind=ex", seed, m, bitsList(ws), bitsList(us), intsJoin(ranks), intsJoin(cs), sc.tok)
 		c.Count("ws_ex")
 		c.Count("ws_ex_scale_" + sc.tok)
+	}
+	// 5b. state carried across calls: a call that PANICS (callback panicking at index 0, 1, k, n-1; nil callback; invalid
+	//     arguments) and is recovered by the caller, followed in the same process by valid calls, all in one script line
+	validCall := func(n, m int) (string, bool) {
+		sc := scs[r.Intn(len(scs))]
+		cs := make([]int, n)
+		for k := range cs {
+			cs[k] = r.Range(1, 8)
+		}
+		seed := g.nextSeed()
+		us := drawU(seed, n)
+		ranks, ok := exactRanks(us, cs)
+		if !ok {
+			return "", false
+		}
+		ws := make([]float64, n)
+		for k := range ws {
+			ws[k] = float64(cs[k]) * sc.val
+		}
+		return fmt.Sprintf("v %d %d w=%s u=%s r=%s c=%s scale=%s kind=ex", seed, m, bitsList(ws), bitsList(us), intsJoin(ranks), intsJoin(cs), sc.tok), true
+	}
+	for i := 0; i < c.Budget(3000, 40000); i++ {
+		var calls []string
+		rounds := r.Range(1, 3)
+		good := true
+		for rd := 0; rd < rounds && good; rd++ {
+			n := r.Range(1, 12)
+			if r.Intn(4) == 0 {
+				n = r.Range(12, 40)
+			}
+			m := r.Range(1, n)
+			switch r.Intn(8) {
+			case 0:
+				calls = append(calls, fmt.Sprintf("pw %d %d %d 0", g.nextSeed(), m, n))
+				c.Count("wseq_panic_at_0")
+			case 1:
+				if n >= 2 {
+					calls = append(calls, fmt.Sprintf("pw %d %d %d 1", g.nextSeed(), m, n))
+					c.Count("wseq_panic_at_1")
+				}
+			case 2, 3:
+				calls = append(calls, fmt.Sprintf("pw %d %d %d %d", g.nextSeed(), m, n, r.Intn(n)))
+				c.Count("wseq_panic_at_k")
+			case 4, 5:
+				calls = append(calls, fmt.Sprintf("pw %d %d %d %d", g.nextSeed(), m, n, n-1))
+				c.Count("wseq_panic_at_last")
+			case 6:
+				calls = append(calls, fmt.Sprintf("nil %d %d", m, n))
+				c.Count("wseq_nil_callback")
+			default:
+				pc := [][2]int{{0, 3}, {-1, 2}, {5, 4}, {1, 0}, {2, 1}, {0, 1}}[r.Intn(6)]
+				calls = append(calls, fmt.Sprintf("pa %d %d", pc[0], pc[1]))
+				c.Count("wseq_invalid_args")
+			}
+			// followed by valid calls: smaller and larger than the aborted one, sampleNum small and equal to totalNum
+			for f := r.Range(1, 3); f > 0; f-- {
+				n2 := r.Range(1, 10)
+				m2 := r.Range(1, n2)
+				switch r.Intn(4) {
+				case 0:
+					m2 = n2
+				case 1:
+					m2 = 1
+				}
+				vc, ok := validCall(n2, m2)
+				if !ok {
+					good = false
+					break
+				}
+				calls = append(calls, vc)
+			}
+		}
+		if good && len(calls) >= 2 {
+			c.Emit("wseq | %s", strings.Join(calls, " ; "))
+			c.Count("wseq")
+		}
 	}
 	// 6. argument validation
 	for _, pc := range [][2]int{{0, 1}, {0, 3}, {-1, 1}, {-5, 4}, {2, 1}, {5, 4}, {1, 0}, {0, 0}, {-1, 0}, {1, -3}, {-2, -3}} {
